@@ -100,7 +100,9 @@ class AttributeCollection(MutableMapping[int, Attribute]):
         Attribute.CODE.LOCAL_PREF: ('integer', '', 'local-preference', '%s', '%s'),
         Attribute.CODE.ATOMIC_AGGREGATE: ('boolean', '', 'atomic-aggregate', '%s', '%s'),
         Attribute.CODE.AGGREGATOR: ('string', '', 'aggregator', '( %s )', '%s'),
-        Attribute.CODE.AS4_AGGREGATOR: ('string', '', 'aggregator', '( %s )', '%s'),
+        # not "aggregator": a 2-octet AS speaker sends AGGREGATOR (with AS_TRANS) AND AS4_AGGREGATOR in one UPDATE,
+        # and a JSON object cannot hold the key "aggregator" twice
+        Attribute.CODE.AS4_AGGREGATOR: ('string', '', 'as4-aggregator', '( %s )', '%s'),
         Attribute.CODE.COMMUNITY: ('list', '', 'community', '%s', '%s'),
         Attribute.CODE.LARGE_COMMUNITY: ('list', '', 'large-community', '%s', '%s'),
         Attribute.CODE.ORIGINATOR_ID: ('inet', '', 'originator-id', '%s', '%s'),
